@@ -23,6 +23,13 @@ type c29Scenario struct {
 	Callers   [][]c29Op  `json:"callers"`
 	CloseAtNs int64      `json:"close_at_ns"` // <0: close after all callers are done
 	TailNs    int64      `json:"tail_ns"`     // idle time after the callers finish (lets the timer fire)
+	// The channel's ExitIdleMode/EnterIdleMode take this long (a real channel
+	// rebuilds or tears down its resolver and balancer there): 0 = instant,
+	// <0 = one bare scheduling point, >0 = virtual nanoseconds. The channel
+	// counts as idle until ExitIdleMode has returned and from the moment
+	// EnterIdleMode is entered.
+	ExitHoldNs  int64 `json:"exit_hold_ns,omitempty"`
+	EnterHoldNs int64 `json:"enter_hold_ns,omitempty"`
 }
 
 func (s *c29Scenario) SchedP() *core.Sched { return &s.Sched }
@@ -56,6 +63,10 @@ func genC29(seed uint64, tier string) *c29Scenario {
 				ops = append(ops, c29Op{Kind: "exit"})
 			case r.Chance(1, 8):
 				ops = append(ops, c29Op{Kind: "sleep", Gap: int64(r.Intn(60)) * scale})
+			case r.Chance(1, 4):
+				// the next operation starts at the very instant the idle timer
+				// (re-armed when this call ends) fires, or one tick around it
+				ops = append(ops, c29Op{Kind: "call", Hold: int64(r.Intn(50)) * scale * int64(r.Intn(2)), Gap: max(0, s.TimeoutNs+int64(core.Pick(r, -1, 0, 0, 0, 1)))})
 			default:
 				ops = append(ops, c29Op{Kind: "call", Hold: int64(r.Intn(50)) * scale * int64(r.Intn(2)), Gap: int64(r.Intn(80)) * scale * int64(r.Intn(2))})
 			}
@@ -67,16 +78,40 @@ func genC29(seed uint64, tier string) *c29Scenario {
 		s.CloseAtNs = int64(r.Intn(200)) * scale
 	}
 	s.TailNs = int64(r.Intn(100)) * scale
+	if r.Chance(1, 2) {
+		s.ExitHoldNs = int64(core.Pick(r, -1, -1, 1, r.Intn(30), r.Intn(100))) * scale
+		if s.ExitHoldNs < 0 {
+			s.ExitHoldNs = -1
+		}
+	}
+	if r.Chance(1, 4) {
+		s.EnterHoldNs = int64(core.Pick(r, -1, 1, r.Intn(30))) * scale
+		if s.EnterHoldNs < 0 {
+			s.EnterHoldNs = -1
+		}
+	}
 	return s
 }
 
 type c29Enforcer struct {
-	e      *core.Env
-	idle   bool // state as driven by the callbacks; the manager starts idle
-	active int  // RPCs between OnCallBegin's return and OnCallEnd's invocation
-	closed bool // Close has been invoked (checks are off from here on)
-	enters int
-	exits  int
+	e                   *core.Env
+	idle                bool // state as driven by the callbacks; the manager starts idle
+	active              int  // RPCs between OnCallBegin's return and OnCallEnd's invocation
+	closed              bool // Close has been invoked (checks are off from here on)
+	enters              int
+	exits               int
+	exitHold, enterHold int64
+	mu                  sync.Mutex // only a scheduling point
+}
+
+func (c *c29Enforcer) hold(d int64) {
+	switch {
+	case d < 0:
+		c.mu.Lock()
+		c.mu.Unlock()
+	case d > 0:
+		time.Sleep(time.Duration(d))
+	}
 }
 
 func (c *c29Enforcer) ExitIdleMode() {
@@ -84,6 +119,7 @@ func (c *c29Enforcer) ExitIdleMode() {
 	if !c.idle {
 		c.e.Violate("alternation", "ExitIdleMode while not idle (exits=%d enters=%d)", c.exits, c.enters)
 	}
+	c.hold(c.exitHold)
 	c.idle = false
 	c.exits++
 }
@@ -98,10 +134,11 @@ func (c *c29Enforcer) EnterIdleMode() {
 	}
 	c.idle = true
 	c.enters++
+	c.hold(c.enterHold)
 }
 
 func runC29(e *core.Env, s *c29Scenario) {
-	enf := &c29Enforcer{e: e, idle: true}
+	enf := &c29Enforcer{e: e, idle: true, exitHold: s.ExitHoldNs, enterHold: s.EnterHoldNs}
 	m := idle.NewManager(enf, time.Duration(s.TimeoutNs))
 	var wg sync.WaitGroup
 	for ci, ops := range s.Callers {
@@ -164,6 +201,10 @@ func runC29(e *core.Env, s *c29Scenario) {
 	}
 	enf.closed = true
 	m.Close()
+	// a timer callback may still be inside a slow Enter/ExitIdleMode
+	if g := max(s.ExitHoldNs, 0) + max(s.EnterHoldNs, 0); g > 0 {
+		time.Sleep(time.Duration(2*g + 1))
+	}
 }
 
 func init() { core.Register("C29wu", genC29, runC29) }
